@@ -222,7 +222,7 @@ class CONSEngine(Engine):
             return
         api = req["api"]
         if api not in ("fetch", "list_offsets", "offset_commit", "offset_fetch"):
-            if api == "metadata":
+            if api in ("metadata", "find_coordinator"):
                 self.consumer_writes.append({"evseq": self.evseq, "time": self.world.now, "api": api, "inc": self.incarnation, "conn": conn})
             return
         run = self.runs[-1] if self.runs else None
@@ -621,7 +621,10 @@ class CONSEngine(Engine):
                 info["deliv_time"] = w.now
                 if run is not None and info["req_seq"] > run["seq0"] and run.get("stopped_evseq") is None:
                     if info["api"] == "fetch" and info.get("fetch", {}).get((TOPIC, 0), (0,))[0] == 1:
-                        self._out_of_range(run, info)
+                        # only if the client still waits for it (a reply after the client-side timeout is discarded)
+                        recs = [x for x in self._cfetches if x["corr"] == info["corr"] and x["inc"] == self.incarnation]
+                        if recs and w.now < recs[-1]["time"] + self.timeout - 1e-9:
+                            self._out_of_range(run, info)
                     elif info["api"] == "list_offsets" and run.get("oor_evseq") is not None and info.get("offsets_answer"):
                         run["reset_pos"] = info["offsets_answer"][0]
         self._check_invocations()
@@ -701,8 +704,10 @@ class CONSEngine(Engine):
             run["oor_evseq"] = None
             run["reset_pos"] = None
             self.nt.add("offset-reset-policy-fired")
-        nxt = [r for r in recs if r["offset"] >= pos]
+        # reference = every record ever appended (a reply generated before a head truncation may still carry records
+        # that have since been removed; skipping them is only allowed through the out-of-range reset handled above)
         allrec = dict((r["offset"], r) for b in self.part.batches for r in b.records)
+        nxt = [allrec[o] for o in sorted(allrec) if o >= pos]
         run["delivered"].append(off)
         if not nxt or nxt[0]["offset"] != off:
             want = nxt[0]["offset"] if nxt else None
@@ -984,7 +989,15 @@ class CONSEngine(Engine):
                 rec["_delay_checked"] = True
                 continue
             rec["outcome"] = code
-            later = [x for x in self.consumer_writes[-40:] if x["evseq"] > rep["deliv_evseq"] and x["inc"] == self.incarnation and (x.get("api") in ("fetch", "list_offsets", "offset_fetch", "metadata")) and not x.get("resend")]
+            # the consumer's next write on the fetch path (a coordinator lookup belongs to it only after a failed
+            # OffsetFetch, and only when no commit is in progress that could have caused the lookup)
+            apis = ("fetch", "list_offsets", "offset_fetch", "metadata")
+            if rec["api"] == "offset_fetch" and not any(c["api"] == "send_offset_commit_request" and (c["done"] is None or c["done"] > rep["deliv_evseq"]) for c in self.ccalls):
+                apis += ("find_coordinator",)
+            elif rec["api"] == "offset_fetch":
+                rec["_delay_checked"] = True
+                continue
+            later = [x for x in self.consumer_writes[-40:] if x["evseq"] > rep["deliv_evseq"] and x["inc"] == self.incarnation and (x.get("api") in apis) and not x.get("resend")]
             if code == 0:
                 rec["_delay_checked"] = True
                 rec["k"] = 0
@@ -998,8 +1011,10 @@ class CONSEngine(Engine):
             while j >= 0 and reqs[j].get("outcome") not in (None, 0) and reqs[j]["run"] is rec["run"] and reqs[j].get("timely", True):
                 k += 1
                 j -= 1
-            if j >= 0 and reqs[j].get("outcome") is None and reqs[j]["run"] is rec["run"]:
-                continue  # an earlier request's fate is unknown (timeout / drop): k is not known
+            if j < 0 or reqs[j]["run"] is not rec["run"] or reqs[j].get("outcome") != 0:
+                # the chain of failures must start right after a request known to have succeeded in this run; otherwise
+                # failures the harness cannot see (a timed-out metadata load, a dropped reply) may have preceded it
+                continue
             if code == 1 and rec["api"] == "fetch":
                 continue  # out of range: governed by the reset policy
             run = rec["run"]
